@@ -218,6 +218,40 @@ def tcp_lifecycle(ops: List[int], n: int) -> bool:
                and not conn.disconnecting and not conn._connected)
 
 
+def active_reselect(alive: bool, ran_first: bool, system: int) -> bool:
+    """
+    pre: 0 <= system < 2**32
+    post: _
+    """
+    # active endpoint: the link is lost while NOT SELECTED (Select.req not answered). The thread of the first Select.req may still be
+    # waiting out T6 (alive) when the next connection is established (T5 < T6), or it may not even have sent its request yet.
+    # The new connection must get its own Select.req: exactly one, from a thread started for this connection.
+    ft = rig.FakeThreading()
+    hp.threading = ft
+    p, c, delivered = rig.make_protocol(active=True)
+    p._system_counter = system
+    p._settings.timeouts.t6 = 0                            # a thread that runs gives up at once (virtual T6 expiry)
+    p._on_connected({"source": c})
+    first = [t for t in ft.threads if t.started]
+    if len(first) != 1:
+        return False
+    if ran_first:
+        first[0].target()                                  # sends Select.req, no answer
+    first[0].is_alive = lambda: alive
+    p._on_disconnecting({"source": c})
+    p._on_disconnected({"source": c})
+    if p.connection_state.current != ConnectionState.NOT_CONNECTED:
+        return False
+    del c.wire[:]
+    p._on_connected({"source": c})
+    second = [t for t in ft.threads if t.started and t is not first[0]]
+    if len(second) != 1:
+        return False                                       # nobody will send the Select.req of the new connection
+    second[0].target()
+    reqs = [bytes(f) for f in c.wire if len(f) == 14 and f[9] == 1]
+    return fin(len(reqs) == 1 and p.connection_state.current == ConnectionState.CONNECTED_NOT_SELECTED)
+
+
 def server_stop_handshake(k: int, kind: int) -> bool:
     """
     pre: 0 <= k <= 3 and 0 <= kind <= 2
@@ -312,6 +346,11 @@ OBLIGATIONS = [
                 "bytes delivered, close reported once, flags at rest; socket/select/sleep are contract stubs, each connection's "
                 "receiver runs to completion (sequential)",
          outside="preemption between disconnect() and the receiver thread (busy-wait spin protocol on real threads); accept/connect threads"),
+    dict(name="active_reselect", fn="active_reselect", timeout=300,
+         functions=["HsmsProtocol._on_connected/_on_state_connect/_send_select_req_thread/send_select_req/_on_disconnecting/_on_disconnected"],
+         bounds="active endpoint, link lost while NOT SELECTED, the first Select.req thread still alive (waiting for T6) or finished, its "
+                "request sent or not, any system-bytes counter: the next connection gets exactly one Select.req of its own",
+         outside="real timers (T5/T6 as wall-clock values)"),
     dict(name="server_stop_handshake", fn="server_stop_handshake", timeout=300,
          functions=["TcpServerConnection.__server_thread (accept loop) against the first half of TcpServerConnection.disable"],
          bounds="disable() arriving while the accept thread is in its 1st..4th select() call; that call times out, reports the closed "
